@@ -1,5 +1,6 @@
 #![allow(dead_code)]
 mod api;
+mod bytes;
 mod extract;
 mod gen;
 mod hist;
@@ -82,6 +83,7 @@ fn replay_case(property: &str, case: &Value, rep: &mut Report) -> Result<(), Str
             }
         }
         "merge" | "ops" => api::replay(property, case, rep),
+        "bytes" => bytes::replay(property, case, rep),
         other => Err(format!("unknown case kind {:?}", other)),
     }
 }
@@ -172,6 +174,11 @@ fn run_hist(args: &Args, oracle: Oracle, mix: Mix) -> (Report, String, bool) {
 
 fn main() {
     hist::install_panic_hook();
+    if std::env::args().nth(1).as_deref() == Some("c07-shard") {
+        let a: Vec<String> = std::env::args().skip(2).collect();
+        let code = bytes::c07_shard_main(a[0].parse().unwrap(), a[1].parse().unwrap(), a[2].parse().unwrap(), &a[3], a[2] == "1");
+        std::process::exit(code);
+    }
     let args = parse_args();
     let started = Instant::now();
     if args.property.is_empty() && std::env::args().nth(1).as_deref() != Some("mkcase") {
@@ -246,6 +253,32 @@ fn main() {
                     "the document AST is ground truth; the serializer in gen.rs writes well-formed XML for it".into(),
                     "quick-xml 0.37.5 default reader configuration".into(),
                     "rendered text is read back with the quick-xml preset (@, $text), whose bindings identify attributes, text and children unambiguously".into(),
+                ],
+                1000,
+                json!({}),
+            )
+        } else if property == "C07" {
+            let (r, rule, extra) = bytes::run_c07(args.tier == "thorough", args.seed, SHARDS);
+            (
+                r,
+                rule,
+                false,
+                vec![
+                    "optimized harness build with debug assertions and overflow checks on; 2 MiB stack for nesting ladders (std's default for spawned threads); nesting deeper than 200 and inputs above 64 KiB are not claimed".into(),
+                    "a clean sanitizer run is not memory safety; the crate itself has no unsafe code, the tools watch quick-xml/memchr/std as driven by this crate".into(),
+                ],
+                1000,
+                extra,
+            )
+        } else if property == "C08" {
+            let (r, rule) = bytes::run_c08(args.tier == "thorough", args.seed, SHARDS);
+            (
+                r,
+                rule,
+                false,
+                vec![
+                    "the expected verdict comes from a second quick-xml reader of the same kind over the same bytes: the oracle checks this crate's handling of the event stream, not quick-xml's own notion of well-formedness".into(),
+                    "error variants are constrained only for syntax errors (must carry the reader's error and one of its two positions)".into(),
                 ],
                 1000,
                 json!({}),
